@@ -19,7 +19,7 @@ import os, sys, json, sqlite3, logging, warnings
 
 META = {
     'level': 'exploration',
-    'engine': 'E3 + stubs',
+    'engine': 'E3+stubs',
     'technique': 'runtime monitor: executable contract model of db_session (commit/retry/nesting) vs raw database '
                  'contents, body execution count and propagated exception, incl. Flask/Bottle protocol stubs',
     'level_text': 'Each generated session program is executed by the real db_session code in every calling form and '
@@ -409,6 +409,12 @@ def execute(case, env):
                     else: next(it)
                 except StopIteration: break
                 sus += 1
+                if env.db.provider.transaction_lock.locked():
+                    # the suspended session still holds SQLite's write transaction (state, not time: any other
+                    # session of the process would now block on this lock): its changes are neither committed
+                    # nor rolled back although control is back with the caller
+                    env.suspended_in_transaction = True
+                    it.close(); break
                 other_work(env, sus)
                 action = consumer[sus - 1] if sus <= len(consumer) else 'next'
                 if action == 'close': it.close(); break
@@ -434,6 +440,7 @@ def execute(case, env):
             if resp.exception is not None: exc = type(resp.exception).__name__
         else: raise AssertionError(form)
     except BaseException as e:
+        if isinstance(e, Watchdog): raise
         if isinstance(e, (KeyboardInterrupt, SystemExit, AssertionError)) and not _from_pony(e): raise
         exc = type(e).__name__
     return {'committed': env.rows(), 'runs': env.runs, 'exc': exc}
@@ -480,11 +487,24 @@ def writes_in(steps):
 def depth_of(steps):
     return 1 + max([depth_of(s[3]) for s in steps if s[0] == 'nest'] or [0])
 
+class Watchdog(Exception):
+    pass
+
+def _alarm(signum, frame):
+    raise Watchdog('case did not finish within %d s' % CASE_WATCHDOG_S)
+
+CASE_WATCHDOG_S = 60
+
 def judge(ctx, env, case, origin):
+    import signal
     env.reset()
+    env.suspended_in_transaction = False
     outs, notes = admissible(case)
-    obs = execute(case, env)
+    signal.signal(signal.SIGALRM, _alarm); signal.alarm(CASE_WATCHDOG_S)
+    try: obs = execute(case, env)
+    finally: signal.alarm(0)
     leak = session_state_leak()
+    if env.suspended_in_transaction: leak['suspended_generator_holds_transaction_lock'] = True
     nontrivial = writes_in(case['body']) > 0
     ctx.case(json.dumps(case, sort_keys=True), nontrivial=nontrivial,
              sample={'case': case, 'observed': obs, 'predicted': outs[0]})
@@ -502,6 +522,7 @@ def judge(ctx, env, case, origin):
     witness = {'case': case, 'observed': obs, 'predicted': p, 'alternatives': outs[1:], 'origin': origin}
     if leak:
         force_clean_state()
+        if env.db.provider.transaction_lock.locked(): env.db.provider.transaction_lock.release()
         ctx.violation(dict(witness, leak=leak), mechanism='session-state-leak')
         return
     if any(same(obs, o) for o in outs):
@@ -662,6 +683,11 @@ def bottle_opts():
 # ---------------------------------------------------------------------------------------------------------------
 
 def run(ctx):
+    try: _run(ctx)
+    except Watchdog as e:        # wall-clock watchdogs only ever produce INCONCLUSIVE
+        ctx.inconclusive.append('watchdog: %s' % e)
+
+def _run(ctx):
     quick = ctx.tier == 'quick'
     env = Env(ctx)
     exc_table()
